@@ -1591,11 +1591,6 @@ KNOWN_LIMITS = {
     "RF5-C17-02-arena-struct": ("`Outbound::{buf, used}` (anchored state of C17) grouped into a private `Arena` struct", ["C01/", "C02/", "C12/", "C17/"]),
     "RF5-C18-04-generation-in-outbound": ("the generation counter (anchored state of C05/C18) moves from SessionData into Outbound", ["C05/", "C18/"]),
     "RF5-C09-02-ser-body-len-cursor": ("`MqttSerializer::index` (anchored state of C01.len) replaced by a body-length counter", ["C01/len/"]),
-    "RF6-C04-g-repaired": ("all three progress setters (and `SendState::set_written`) return \"the packet reached its flush stage\" and the step flushes on that "
-                           "result: the flush decision is a call result, not the comparison `written + count >= len` the clause looks for "
-                           "(the seed it repairs, where one setter still answers \"found\", fails the same clause)",
-                           ["C01/store/flush-after-complete-write", "C04/store/flush-after-complete-write", "C13/store/flush-after-complete-write",
-                            "C15/store/flush-after-complete-write"]),
     "RF6-C17-h-repaired": ("the space needed after compaction is kept in a counter field (`retained_bytes`, maintained by the enqueue, the removal and "
                            "`clear()`) instead of being summed from the entries: the free-space clauses demand a function of the entries alone "
                            "(anchored representation; the seed it repairs forgets the reset in `clear()` and fails the same clauses)",
@@ -1622,18 +1617,12 @@ KNOWN_LIMITS = {
         ['C04/rx/window', 'C14/rx/window', 'C08/panic/']),
     'RF6-C09-c-repaired': ("`Will` keeps its CONNECT flag bits in one `flags: u8` field maintained by the builder methods: the connect-flags table is read from the serializer's own `|=` contributions",
         ['C01/bits/connect', 'C09/bits/connect']),
-    'RF6-C11-c-repaired': ('the latch on a failed flush moves from `flush_current` into a `fail_outbound` helper applied by every caller (`.map_err(|err| self.fail_outbound(err))`): the per-function rule wants the exit of `flush_current` itself latched (the seed it repairs misses one caller)',
-        ['C11/fatal/flush_current', 'C19/dead/fatal/flush_current']),
     'RF6-C12-b-repaired': ('the length probe becomes incremental with two new reader fields: new arithmetic / indexing sites on the inbound path have no entry in the panic-site discharge table (reported by design)',
         ['C08/panic/', 'C08/varint/reader-probe']),
     'RF6-C15-c-repaired': ('the write step carries only the unsent tail (`pending`) and the recorded progress is `len - pending + written`: a re-representation of the (bytes, written, len) triple the write clauses compare',
         ['C01/store/step-accumulates', 'C04/store/step-accumulates', 'C13/store/step-accumulates', 'C15/store/step-accumulates', 'C15/write/']),
     'RF6-C17-c-repaired': ('`ack_packet` closes the hole itself with a `close_hole` helper (`copy_within` + `used` update) instead of calling `compact()`: a new writer of arena bytes and of `used` (who-may-write rules report it by design)',
         ['C01/used/writer', 'C01/writers/', 'C02/used/writer', 'C02/writers/', 'C12/used/writer', 'C17/used/writer', 'C17/writers/']),
-    'RF6-C20-b-repaired': ('`to_owned` copies the correlation data with `Vec::new()` + `extend_from_slice(..)` (fallible in heapless, mapped to BufferTooSmall) instead of `TryFrom`: the conversion census knows the TryFrom / TryInto idiom only',
-        ['C20/owned/', 'C20/publication/OwnedResponseTarget']),
-    'RF6-C20-c-repaired': ("the decoder's string / binary arms are merged by or-patterns and build the property through `from_utf8(identifier, ..)` / `from_binary(..)` helpers that match on the identifier a second time (with a wildcard default): the read table is extracted per arm of one match",
-        ['C01/props/read/', 'C09/props/read/', 'C04/decode/', 'C08/decode/', 'C20/decode/']),
     # round 7: documented limits
     "RF7-G02-01-written-progress-combinators": ("`SendState::set_written(&mut self, written, len)` becomes a pure constructor `after_write(written, len) -> Self` "
                                                 "(a new function, folded into the three setters): the anchor of the `store` group is gone",
